@@ -7,6 +7,8 @@ TRUSTED = ["Lean 4.33.0 kernel", "axioms: propext, Classical.choice, Quot.sound 
            "every schedule computes the least model, hence equals the serial result)",
            "Props/C02ND.lean: the engine as a relation (Proofs/NDEngine.lean) - per pass ANY list of head rows set-equal to the rows of all variant instances, "
            "any order and multiplicity - computes the least model (nd_eq_leastModel); every schedule of the parallel engine is such an execution (par_is_nd)",
+           "Model/EnginePhysPar.lean (the ascent_par! code over its concurrent indices with the frozen / unfrozen protocol, panics included) is what the Lean side runs for the "
+           "relational programs of this tie (`eng runpp`), in a pool of the same size: relations and scc_iters must agree and the model must not panic",
            "tie: ascent_par! twins of generated programs (relations, lattices, aggregation, with and without #![inter_rule_parallelism]) run in pools "
            "of 1,2,3,4,8,16 threads under seeded perturbation of the concurrent index inserts (hook), with a hang watchdog, vs the serial model and oracle",
            "PARTIAL: atomicity of DashMap shard locks, boxcar push, RwLock/Mutex and rayon's completion (happens-before for the Relaxed `changed` flag) "
@@ -34,7 +36,10 @@ def build(rng, tier):
                     for t in (POOLS if tier == "thorough" else [r2.choice(POOLS), 16]):
                         for sd in range(2 if tier == "quick" else 8):
                             inst = f"{pid}_{j}_{t}_{sd}"
-                            ops = [f"eng perturb {1 + r2.below(10 ** 9)}", f"eng new {inst} {pid} par {t}"] + engcheck.load_ops(inst, inp) + [f"eng run {inst}", f"eng dump {inst}", "eng perturb 0"]
+                            # relational programs: the Lean side is the PARALLEL physical-index engine model (Model/EnginePhysPar.lean: frozen / unfrozen protocol,
+                            # per-thread CRelNoIndex, a schedule derived from the pool size) in a pool of the same size; iteration counts are compared too
+                            runop = [f"eng runpp {inst} {t}", f"eng dump {inst}", f"eng iters {inst}"] if kind == "rel" else [f"eng run {inst}", f"eng dump {inst}"]
+                            ops = [f"eng perturb {1 + r2.below(10 ** 9)}", f"eng new {inst} {pid} par {t}"] + engcheck.load_ops(inst, inp) + runop + ["eng perturb 0"]
                             cases.append(engcheck.Case(pid, inst, ops, {"inp": inp, "kind": f"{kind}{'+irp' if irp else ''}", "threads": t,
                                                                        "was": "F5" if kind == "lat" and has_agg_over_lat(p) else None}))
     # witness of finding F5 (fixed by 058163a; must pass): an aggregate over a lattice in parallel mode (re-queued rows were indexed twice)
